@@ -102,6 +102,12 @@ def _edit():
     )
 
 
+def _has_batch(tree):
+    """some directory of the tree holds >= 2 files (one hashing batch)"""
+    files = [v for v in tree.values() if not isinstance(v, dict)]
+    return len(files) >= 2 or any(_has_batch(v) for v in tree.values() if isinstance(v, dict))
+
+
 @st.composite
 def cases(draw):
     target_kind = draw(st.sampled_from(["tree"] * 6 + ["file"]))
@@ -155,6 +161,19 @@ def cases(draw):
         case["drop_symlinked"] = draw(st.sampled_from([False, False, True]))
     else:
         case["target"] = draw(_content())
+    # a status-like dry-run staging of the workspace through the same State during which the user
+    # saves uncached content into a file that was already read (before State.save_many runs)
+    case["race"] = None
+    if target_kind == "tree" and draw(st.sampled_from([False, False, False, True])):
+        case["state"] = True
+        case["prior"] = "write"          # fresh state rows: the staging really reads the files
+        case["dangling"] = []
+        case["root_file"] = None
+        case["target"] = draw(gen.trees(max_files=6, max_depth=2, content=_content()).filter(_has_batch))
+        case["palette"] = case["palette"][:6] + [
+            ["uncached", "h:" + (b"racing user edit " + bytes([48 + draw(st.integers(0, 9))])).hex()]]
+        case["race"] = {"skip": draw(st.sampled_from([0, 0, 0, 1, 2])), "pick": draw(st.integers(0, 5)),
+                        "c": len(case["palette"]) - 1}
     return case
 
 
@@ -292,6 +311,36 @@ def apply_edits(ws, edits, palette, clock, labels):
             shutil.rmtree(p)
             put(p, content(e["c"]))
             labels.add("edit:dir->file")
+
+
+def make_writer_fs(ws, skip, pick, action):
+    """Harness-owned local filesystem (deterministic, no threads): when the library opens a workspace
+    file for reading and another file of the same directory (= same hashing batch) was already opened
+    before, the user saves new content into that earlier file - once, at the drawn opportunity."""
+    from dvc_objects.fs.local import LocalFileSystem
+
+    class WriterFS(LocalFileSystem):
+        opened: list = []
+        victim = None
+        todo = skip
+
+        def open(self, path, mode="r", **kwargs):
+            p = os.fspath(path)
+            cls = type(self)
+            if cls.victim is None and "r" in mode and p.startswith(ws + os.sep):
+                cand = [q for q in cls.opened if q != p and os.path.dirname(q) == os.path.dirname(p)]
+                if cand:
+                    if cls.todo > 0:
+                        cls.todo -= 1
+                    else:
+                        cls.victim = cand[pick % len(cand)]
+                        action(cls.victim)
+                if p not in cls.opened:
+                    cls.opened.append(p)
+            return super().open(path, mode, **kwargs)
+
+    WriterFS.opened = []
+    return WriterFS()
 
 
 # ------------------------------------------------------------------------------------------
@@ -432,6 +481,25 @@ def run_checkout_case(case, ctx):  # noqa: C901, PLR0912, PLR0915
                         with open(p, "xb") as f:
                             f.write(data + b"\x00corrupt")
                         os.chmod(p, 0o644)
+
+            # pre-step: status-like staging of the workspace through the same State while the user
+            # saves uncached content into an already-read file of the batch
+            race = case.get("race")
+            if race and state is not None and os.path.isdir(ws):
+                from dvc_data.hashfile.build import build as _build
+
+                def user_saves(victim, _c=race["c"]):
+                    os.unlink(victim)   # never write through a link
+                    with open(victim, "xb") as f:
+                        f.write(gen.content_bytes(palette[_c % len(palette)][1]))
+                    clock.stamp(victim)
+                    labels.add("user-saved-during-staging")
+
+                wfs = make_writer_fs(ws, race["skip"], race["pick"], user_saves)
+                try:
+                    _build(odb, ws, wfs, "md5", dry_run=True)
+                except FileNotFoundError:   # dangling symlink inside
+                    pass
 
             # pre-step: the same workspace hashed for a legacy md5-dos2unix store that shares the State
             if case.get("legacy_hashed") and state is not None:
